@@ -13,6 +13,7 @@ import (
 func (te *tableEngine) tableGameOpen() error {
 	te.lock.Lock()
 	defer te.lock.Unlock()
+	te.verifHook("open.enter")
 
 	if te.table.State.GameState != nil {
 		fmt.Printf("[DEBUG#tableGameOpen] Table (%s) game (%s) with game count (%d) is already opened.\n", te.table.ID, te.table.State.GameState.GameID, te.table.State.GameCount)
@@ -71,6 +72,7 @@ func (te *tableEngine) tableGameOpen() error {
 			return err
 		}
 	}
+	te.verifHook("open.swap")
 	te.table = newTable
 	te.emitEvent("tableGameOpen", "")
 
@@ -93,6 +95,7 @@ func (te *tableEngine) openGame(oldTable *Table) (*Table, error) {
 	if err != nil {
 		return oldTable, err
 	}
+	te.verifHook("open.cloned")
 
 	// Step 3: 更新狀態
 	cloneTable.State.Status = TableStateStatus_TableGameOpened
@@ -229,6 +232,7 @@ func (te *tableEngine) startGame() error {
 		SB:     blind.SB,
 		BB:     blind.BB,
 	}
+	te.verifHook("start.exit")
 	return nil
 }
 
@@ -318,6 +322,7 @@ func (te *tableEngine) continueGame(alivePlayers []*TablePlayerState) error {
 
 		playerState.IsParticipated = active
 	}
+	te.verifHook("continue.reset")
 
 	var nextMoveInterval int
 	var nextMoveHandler func() error
@@ -339,6 +344,7 @@ func (te *tableEngine) continueGame(alivePlayers []*TablePlayerState) error {
 	} else {
 		nextMoveInterval = te.options.GameContinueInterval
 		nextMoveHandler = func() error {
+			te.verifHook("continue.fire")
 			// 如果在 Interval 這期間，該桌已關閉，則不繼續動作
 			if te.table.State.Status == TableStateStatus_TableClosed {
 				return nil
@@ -365,6 +371,7 @@ func (te *tableEngine) continueGame(alivePlayers []*TablePlayerState) error {
 						participants[player.PlayerID] = idx
 					}
 					te.SetUpTableGame(nextGameCount, participants)
+					te.verifHook("continue.setup")
 					return nil
 				}
 
